@@ -212,3 +212,11 @@ Definition holds_hist (c : hcase) : bool :=
     | Some out => qlist_eqb (h_out k) out && oexn_eqb (h_exn k) None
                   && gc_ok (Some (h_size k)) (Some (h_hop k)) (h_blks k) (h_gc k)
     end) (hs_calls c).
+
+(* ------------------------------------------------------------------ stft histories *)
+(* One partial object used as a factory several times, one processor called several times.  The wrapper keeps
+   no state between uses: every call must behave as a first use, i.e. as stft_model on the keyword layers of
+   ITS OWN chain (build-time layers of the partial object, of this use, and the call-time keywords). *)
+Definition shcase := list scase.
+Definition corr_shist (h : shcase) : bool := forallb corr_stft h.
+Definition holds_shist (h : shcase) : bool := forallb holds_stft h.
